@@ -27,7 +27,21 @@ def impl_main(mode, fin, fout):
         viol = []
         try:
             decays = {n: DecayMode(bf, list(ds), **info) for n, bf, ds, info in c["decays"]}
-            dc = DecayChain(c["mother"], decays)
+            if c.get("pre"):
+                # the chain object is first used in another state (one mode with another bf / other daughters), then that mode is
+                # edited IN PLACE to the state of this case: every answer must be that of the chain as it now is
+                from decaylanguage import DaughtersDict
+                nm, pbf, pds = c["pre"]
+                post = decays[nm]
+                decays[nm] = DecayMode(pbf, list(pds), **dict(post.metadata))
+                dc = DecayChain(c["mother"], decays)
+                dc.flatten()
+                _ = dc.visible_bf
+                dc.to_string()
+                dc.decays[nm].bf = post.bf
+                dc.decays[nm].daughters = DaughtersDict(post.daughters.to_list())
+            else:
+                dc = DecayChain(c["mother"], decays)
             if mode == "visible":
                 # DecayChain.visible_bf: the branching fraction of the fully flattened chain (no particle kept stable),
                 # whatever stable set this case uses for its flatten() call
@@ -40,6 +54,8 @@ def impl_main(mode, fin, fout):
             r = dc.flatten(stable_particles=st_arg)
             top = r.decays[r.mother]
             res = [jval(top.bf), top.daughters.to_list(), len(top.daughters), [[k, jval(v)] for k, v in top.metadata.items()]]
+            if list(r.decays.keys()) != [c["mother"]]:
+                res = {"err": "result still has sub-decays"}
             if mode == "oracle":
                 if json.dumps(jval(dc.to_dict()), sort_keys=True) != before or list(dc.decays.keys()) != keys_before:
                     viol.append("original chain modified by flatten")
@@ -133,6 +149,10 @@ def main():
                 st.append(c["mother"])
             c["stable"] = st
             c["stable_kind"] = rng.choice(["tuple", "list", "set"])
+            if names and rng.random() < 0.2:
+                # reached by an in-place edit of one mode of a chain object that was already flattened / rendered in its earlier state
+                d0 = rng.choice([d for d in c["decays"] if d[0] != c["mother"]])
+                c["pre"] = [d0[0], d0[1] * Fraction(rng.choice([1, 3]), rng.choice([2, 4])), [x for x in list(d0[2])[:-1] if x not in {d[0] for d in c["decays"]}] + ["zz_pre"]]
             cases.append(c)
     impl = vlib.run_impl("c12.py", enc(cases))
     terms = [f"vfres (flatten 400 {coq_chain(c)} {clist([cstr(s) for s in c['stable']])})" for c in cases]
